@@ -2,6 +2,8 @@ package main
 
 import (
 	"fmt"
+	"github.com/sdcio/yang-parser/compile"
+	"github.com/sdcio/yang-parser/parse"
 	"github.com/sdcio/yang-parser/schema"
 	"os"
 	"sort"
@@ -111,6 +113,9 @@ func genYModsCase(r *Rng) Case {
 		s["uses"] = pickSome(r, earlier("groupings", 99), 40)
 		if mi > 0 { // augment and deviate ma
 			s["augleaf"] = fmt.Sprintf("%saug", m)
+			if m == "mc" && r.Chance(50) {
+				s["noteaug"] = true // ... and a container inside ma's notification
+			}
 			if r.Chance(60) {
 				s["deviate"] = map[string]string{"mb": "add-default", "mc": "add-config"}[m]
 			}
@@ -169,11 +174,11 @@ func genYModsCase(r *Rng) Case {
 			"import-cycle", "import-self", "import-missing", "unknown-prefix", "unknown-typedef", "unknown-grouping", "unknown-feature", "unknown-identity",
 			"dup-feature", "dup-identity", "dup-typedef", "dup-grouping", "bad-augment-path", "dev-race", "include-cycle", "include-missing",
 			"sub-import-missing", "sub-import-cycle", "orphan-submodule", "orphan-submodule", "ref-status", "ref-status", "ref-status", "sub-identity",
-			"sub-import-missing", "sub-import-cycle", "sub-import-missing", "sub-import-cycle"})
+			"sub-import-missing", "sub-import-cycle", "sub-import-missing", "sub-import-cycle", "sub-feature-cycle"})
 		if modsOnlyStatus {
 			f = "ref-status"
 		}
-		if (f == "include-cycle" || f == "include-missing" || f == "sub-import-missing" || f == "sub-import-cycle" || f == "sub-identity") && all["mc"]["subs"] == nil {
+		if (f == "include-cycle" || f == "include-missing" || f == "sub-import-missing" || f == "sub-import-cycle" || f == "sub-identity" || f == "sub-feature-cycle") && all["mc"]["subs"] == nil {
 			f = "feature-cycle"
 		}
 		c["fault"] = f
@@ -299,6 +304,9 @@ func genYModsCase(r *Rng) Case {
 			// an identity defined in a submodule, and an identityref to it there: the identities of submodules are not
 			// collected, the reference is an error (before the repair: a nil dereference)
 			carr(all["mc"], "subs")[r.Intn(len(carr(all["mc"], "subs")))].(mspec)["ident"] = true
+		case "sub-feature-cycle":
+			// two features of a submodule that depend on each other, and a leaf under one of them
+			carr(all["mc"], "subs")[0].(mspec)["featcycle"] = true
 		case "orphan-submodule":
 			// a submodule of a module that is not supplied (alone it would be the only text of a set: here it comes with others)
 			c["orphan"] = pick(r, []string{"nowhere", "mz"})
@@ -505,6 +513,12 @@ func renderMod(c Case, s mspec) string {
 		}
 		b.WriteString(strings.Repeat(" }", cint(em, "depth")+1) + "\n")
 	}
+	if m == "ma" {
+		b.WriteString("  notification manote { container nc { leaf nl { type string; } } }\n")
+	}
+	if cbool(s, "noteaug") {
+		fmt.Fprintf(&b, "  augment /ma:manote/ma:nc { leaf %snote { type string; } }\n", m)
+	}
 	if a := cstr(s, "augleaf"); a != "" {
 		p := "/ma:matop/ma:slot"
 		if ap := cstr(s, "augpath"); ap != "" {
@@ -540,6 +554,9 @@ func renderSub(parent string, s mspec) string {
 	}
 	if cbool(s, "ident") {
 		fmt.Fprintf(&b, "  identity %sbase;\n  identity %sder { base %sbase; }\n  leaf %sidl { type identityref { base %sbase; } }\n", n, n, n, n, n)
+	}
+	if cbool(s, "featcycle") {
+		fmt.Fprintf(&b, "  feature %sfa { if-feature %sfb; }\n  feature %sfb { if-feature %sfa; }\n  leaf %sfl { if-feature %sfa; type string; }\n", n, n, n, n, n, n)
 	}
 	if x := cstr(s, "tdst"); x != "" {
 		fmt.Fprintf(&b, "  typedef %std { type string; status %s; }\n", n, x)
@@ -621,7 +638,42 @@ func devObserved(ms schema.ModelSet) string {
 			out += " target-default-none"
 		}
 	}
-	return out
+	if n, ok := ms.Notifications()["urn:ma"]["manote"]; ok && n.Schema().Child("nc") != nil {
+		out += fmt.Sprintf(" note-aug=%v", n.Schema().Child("nc").Child("mcnote") != nil)
+	}
+	// every node belongs to one of the modules: what is written in a submodule belongs to the module it belongs to
+	var bad func(n schema.Node) string
+	bad = func(n schema.Node) string {
+		for _, c := range n.Children() {
+			if strings.HasPrefix(c.Module(), "mcs") {
+				return " module-of-" + c.Name() + "=" + c.Module()
+			}
+			if b := bad(c); b != "" {
+				return b
+			}
+		}
+		return ""
+	}
+	return out + bad(ms)
+}
+
+// a compilation that skips unknown modules does not panic either (what it makes of the set is not compared)
+func skipUnknownRun(texts []string) (out string) {
+	defer func() {
+		if r := recover(); r != nil {
+			out = fmt.Sprintf("skip:PANIC %v", r)
+		}
+	}()
+	mods := map[string]*parse.Tree{}
+	for i, t := range texts {
+		tr, e := parse.Parse(fmt.Sprintf("mod%d.yang", i), t, nil)
+		if e != nil {
+			return "skip:no-panic"
+		}
+		mods[tr.Root.Argument().String()] = tr
+	}
+	compile.CompileParseTrees(nil, mods, compile.FeaturesFromNames(true), true, func(schema.Node) bool { return true })
+	return "skip:no-panic"
 }
 
 func runYMods(c Case) string {
@@ -686,6 +738,7 @@ func runYMods(c Case) string {
 		// what the deviations (of mb, of mc or of mc's submodule) have made of ma's nodes
 		out = append(out, devSeen)
 	}
+	out = append(out, skipUnknownRun(texts))
 	if unstable == "" {
 		out = append(out, "det:stable")
 	} else {
